@@ -401,7 +401,7 @@ def gen_loop(rng, P=None):
                               pubs=[("z", ("cat", "z", "|exit"))], do=ex))
     # single entry into the loop: from one non-items dag task on success, or as its own start
     cands = [n for n in names]
-    if cands and rng.random() < 0.85:
+    if cands:
         src = m.tasks[rng.choice(cands)]
         src.trans.append(Tr(len(src.trans), cond=("succeeded",), lang="yaql", do=[body[0]]))
     m.output.append(("i", ("ref", "i"), "yaql"))
